@@ -138,6 +138,17 @@ def erase_bounds_in_generics(toks, lt, names, ed):
     i = lt + 1
     while i < end:
         t = toks[i]
+        if t[1] == '=' and toks[i - 1][0] == 'ident':
+            # default type parameter (`U = DefaultUser`): dropped together with the bounds
+            j = i + 1
+            while j < end and toks[j][1] != ',':
+                if toks[j][1] == '<':
+                    j = skip_angle(toks, j)
+                    continue
+                j += 1
+            ed.replace(toks[i][2], toks[j - 1][3], '')
+            i = j
+            continue
         if t[1] == ':' and toks[i - 1][0] in ('ident', 'lifetime'):
             # bound list runs to next ',' at depth 0 or end
             j = i + 1
@@ -262,8 +273,31 @@ def erase_where(toks, a, b, names, ed):
 def parse_rules(s):
     """'T3(User,Engine) T4 T9(Goal)' -> {'T3': ['User','Engine'], 'T4': [], ...}"""
     rules = {}
-    for m in re.finditer(r'(T\d+)(?:\(([^)]*)\))?', s or ''):
-        rules[m.group(1)] = [x.strip() for x in m.group(2).split(';')] if m.group(2) else []
+    s = s or ''
+    i = 0
+    while i < len(s):
+        m = re.compile(r'T\d+').match(s, i)
+        if not m:
+            i += 1
+            continue
+        name = m.group(0)
+        i = m.end()
+        args = []
+        if i < len(s) and s[i] == '(':
+            depth = 0
+            j = i
+            while j < len(s):
+                if s[j] == '(':
+                    depth += 1
+                elif s[j] == ')':
+                    depth -= 1
+                    if depth == 0:
+                        break
+                j += 1
+            inner = s[i + 1:j]
+            args = [x.strip() for x in inner.split(';') if x.strip()]
+            i = j + 1
+        rules[name] = args
     return rules
 
 
@@ -329,10 +363,9 @@ def emit_type(file, kind, name, rules):
     if 'T11' in rules and it.body_open is not None:
         # drop named fields (their types need the erased bounds; no verified fn may touch them)
         drop = {}
-        for a_ in rules['T11']:
-            for x in a_.split(','):
-                k_, _, v_ = x.partition('=')
-                drop[k_.strip()] = v_.strip()
+        for x in rules['T11']:
+            k_, _, v_ = x.partition('=')
+            drop[k_.strip()] = v_.strip()
         i = it.body_open + 1
         while i < it.b:
             # field start: [pub] name ':'
@@ -354,7 +387,12 @@ def emit_type(file, kind, name, rules):
                     j = match_close(toks, j) + 1
                     continue
                 j += 1
-            if nm in drop:
+            if nm in drop and toks[i + 1][1] == '(':
+                # enum tuple variant: replace the payload types
+                e_ = match_close(toks, i + 1)
+                ed.replace(toks[i + 1][2], toks[e_][3], drop[nm])
+                del drop[nm]
+            elif nm in drop:
                 if drop[nm]:
                     # keep the field name, replace its type
                     ed.replace(toks[i + 2][2], toks[j - 1][3], drop[nm])
@@ -866,7 +904,16 @@ def parse_fn_block(lines, start, spec):
 def generate(vc_path, canary=False):
     """Returns dict(text=..., linemap=[...], fns=[info...], types=[...], errors=[...])"""
     _cache.clear()
-    lines = open(vc_path).read().split('\n')
+    lines = []
+
+    def slurp(path, depth=0):
+        for ln in open(path).read().split('\n'):
+            if ln.strip().startswith('@@include'):
+                inc = ln.strip().split(None, 1)[1]
+                slurp(os.path.join(os.path.dirname(vc_path), inc), depth + 1)
+            else:
+                lines.append(ln)
+    slurp(vc_path)
     out = []           # output text chunks
     linemap = []       # filled after assembling
     fns = []
